@@ -65,7 +65,7 @@ ASSUMPTIONS = [
     "str.join/replace or read from files are not tracked",
 ]
 
-CACHE_DECOS = ("cached_member", "cached_property")
+CACHE_DECOS = ("cached_member", "cached_property", "cache", "lru_cache", "cached")
 MUTATORS = {"append", "extend", "update", "pop", "clear", "add", "remove", "insert", "sort", "reverse", "setdefault",
             "popitem", "discard", "expand", "subs", "doit", "make_real", "substitute_contracted", "substitute_with_generic",
             "factor", "set_sym_tensors", "set_antisym_tensors", "set_target_idx", "rename_tensor", "diagonalize_fock",
